@@ -319,6 +319,21 @@ func init() {
 		x.rvWrite(st, "B", el, boolLit(false))
 		return p, true
 	}
+	libModels["reflect.Zero"] = func(x *Exec, st *State, e *ast.CallExpr, a []Value, _ []types.Type) (Value, bool) {
+		// a fresh value of the type holding its zero value (reference content: the type's nil / zero, rvZeroX)
+		el := x.newRef(st, "rvz")
+		st.assume("(= " + rvKindOf(el).S + " (rtKind " + asTerm(a[0]).S + "))")
+		x.rvWrite(st, "I", el, zeroOf(func() Sort {
+			if x.mode == "bv" {
+				return BV(64)
+			}
+			return SInt
+		}()))
+		x.rvWrite(st, "S", el, strLit(""))
+		x.rvWrite(st, "B", el, boolLit(false))
+		x.rvWrite(st, "X", el, x.uf("rvZeroX", SInt, asTerm(a[0])))
+		return el, true
+	}
 	libModels["reflect.Value.Elem"] = func(x *Exec, st *State, e *ast.CallExpr, a []Value, _ []types.Type) (Value, bool) {
 		return Term{"(rvElem " + asTerm(a[0]).S + ")", SInt}, true
 	}
